@@ -44,6 +44,7 @@ type FuncSpec struct {
 	NoInline    bool
 	Opaque      bool // body unverified and contract assumed, e.g. unsafe code
 	Inline      bool
+	Allocates   *CExpr // upper bound (in elements) on every single make() of the body and of the code it inlines
 }
 
 type GhostSet struct {
@@ -230,6 +231,10 @@ func loadSpecFile(path string, required bool) {
 		case "noauto":
 			if curL != nil {
 				curL.NoAuto = true
+			}
+		case "allocates":
+			if curF != nil {
+				curF.Allocates = parseCExpr(rest, where)
 			}
 		case "decreases":
 			e := parseCExpr(rest, where)
